@@ -83,6 +83,8 @@ theorem handleErr_framework (pr : Char → Bool) (raw : Bytes) (oc : Outcome) (h
           exact Or.inr ⟨(k, code, body), hk, rfl⟩
         · simp only [errorsMapOK, List.all_eq_true] at hM
           exact hM (k, code, body) hk
+    | iterRaises c m t => exact ⟨_, rfl, by simp [frameworkPages, httpError, strOpt], by simp only [httpError]; decide⟩
+    | unsupportedType _ => cases hoc
     | abort _ _ => cases hoc
     | ok _ => cases hoc
 
